@@ -138,6 +138,10 @@ def check(ix, rep):
     nw1, _ = windowrule.check_offline(ix, rep, by['discrete-offline'], which=('R-INDEX',))
     nw2, _ = windowrule.check_online(ix, rep, by['discrete-online'], which=('R-INDEX',))
     rep.floor('bounded discrete-time operators whose index obligations were derived', nw1 + nw2, 10)
+    # a supported specification is not rejected because one interpreter never heard of the configured period
+    from sa.rules import units as _units
+    nr = _units.check_forwarding_reach(ix, rep)
+    rep.floor('interpreters a sampling setting has to reach', nr, 2)
     # an inherited caller meets the overriding callee: self-calls are matched against every class they can run in
     from sa.rules import selfarity
     na = selfarity.check(ix, rep)
